@@ -260,6 +260,28 @@ def run(tier, work, replay=None):
             feats = dict(gamma.features(it["op"]), part="universe")
             judge_doc(v, feats, uschema, authored, it["name"], rec.get("body"), {"operation": gamma.render_op(it["name"], it["op"])})
     v.cov["universe_operations"] = len(uitems)
+    # ---- (l) variables named like the locals of the generated method (query, variables, data, response ...), for queries,
+    #          mutations AND subscriptions (the document reaches the transport through a local variable of the method)
+    lsdl = ("type Query { f(query: String, variables: String, data: String, response: String, operation_name: String): String }\n"
+            "type Mutation { m(query: String, variables: String): String }\ntype Subscription { s(query: String, variables: String, data: String): String }\n")
+    lq = ("query QLocals($query: String, $variables: String, $data: String, $response: String, $operation_name: String) "
+          "{ f(query: $query, variables: $variables, data: $data, response: $response, operation_name: $operation_name) }\n"
+          "mutation MLocals($query: String, $variables: String) { m(query: $query, variables: $variables) }\n"
+          "subscription SLocals($query: String, $variables: String, $data: String) { s(query: $query, variables: $variables, data: $data) }\n"
+          "subscription SQueryOnly($query: String!) { s(query: $query) }\nsubscription SPlain { s }\n")
+    lschema = build_schema(lsdl)
+    for vname, plugins in (("plain", []), ("extract", [EXTRACT])):
+        job = write_job(work.dir / f"job_l_{vname}", schema=lsdl, queries=lq, package="gclient", options={"async_client": True, "plugins": plugins})
+        r = generate(job)
+        feats = {"part": "locals", "variant": vname}
+        if r["exc_class"]:
+            v.violation(feats, f"gen_crash:{r['exc_class']}", {"message": r["exc_msg"]})
+            continue
+        o = run_in_pkg(job, "harness.pkg.capture", {"package": "gclient", "ops": ["QLocals", "MLocals", "SLocals", "SQueryOnly", "SPlain"], "data": None, "async": True,
+                                                    "subscriptions": True, "args": {"query": "cats and dogs"}})
+        for name in ("QLocals", "MLocals", "SLocals", "SQueryOnly", "SPlain"):
+            n_eval += 1
+            judge_doc(v, dict(feats, operation=name), lschema, lq, name, o["ops"].get(name, {}).get("body"), {"operation": name, "record": o["ops"].get(name)})
     # ---- (e) the repository's own example projects: every operation of every project, as its authors wrote it
     from .. import corpus
     import tomllib
